@@ -6,11 +6,11 @@ import glob, json, os, re, shutil
 ROOT = os.path.dirname(os.path.dirname(os.path.abspath(__file__)))
 OVERRIDES = json.load(open(os.path.join(ROOT, "tools", "seeded_overrides.json"))) if os.path.exists(os.path.join(ROOT, "tools", "seeded_overrides.json")) else {}
 kept, dropped = [], []
-for d in sorted(glob.glob("/tmp/mut/C*/m[0-9]*")):
+for d in sorted(glob.glob("/tmp/mut/C*/m[0-9]*")) + sorted(glob.glob("/tmp/mut2/C*/m[0-9]*")):
     if not os.path.isdir(d):
         continue
     prop, k = d.split("/")[3], d.split("/")[4]
-    name = "%s-%s" % (prop, k)
+    name = "%s-%s" % (prop, k) if d.startswith("/tmp/mut/") else "w2-%s-%s" % (prop, k)
     need = [os.path.join(d, f) for f in ("patch.diff", "demo_test.go", "notes.md", "confirm.json")]
     if not all(os.path.exists(f) for f in need):
         dropped.append((name, "incomplete")); continue
@@ -36,7 +36,7 @@ for d in sorted(glob.glob("/tmp/mut/C*/m[0-9]*")):
             "ran": "tools/mutant_eval.py: patch applied to a scratch worktree of /repo HEAD (or /repo itself), every check's quick tier run against it, patch undone",
             "note": ov.get("note", "")}
     json.dump(meta, open(os.path.join(out, "meta.json"), "w"), indent=1)
-    for f in ("eval.json", "eval_thorough.json"):
+    for f in ("eval.json", "eval_thorough.json", "eval_own.json"):
         if os.path.exists(os.path.join(d, f)):
             shutil.copy(os.path.join(d, f), os.path.join(out, f))
     kept.append(name)
